@@ -177,3 +177,10 @@ Example C12_nonvacuous :
      /\ ps_constraints J B None true true (asg_of J B [0%nat] 1 (pay_of [[1; 0]; [1; 0]]) true) = true
      /\ ps_constraints I A (Some [0%nat]) false true (asg_of I A [0%nat] (3 # 2) (pay_of cheat) false) = false.
 Proof. vm_compute. repeat split; reflexivity. Qed.
+
+(* the big-M factor of the model is the one the SOURCE uses now (Generated/Anchors.v is re-extracted
+   from priceability.py on every run: INF = max(budget, costs) * BIGM_FACTOR) *)
+From PB Require Generated.Anchors.
+Theorem C12_bigm_factor_is_the_sources : BIGM_FACTOR = inject_Z Anchors.ANCHOR_BIGM_FACTOR.
+Proof. reflexivity. Qed.
+Print Assumptions C12_bigm_factor_is_the_sources.
